@@ -271,6 +271,10 @@ inside `permissions` (alone, after `r`, before `m`).  Independent of how the val
 theorem T2_device_types_executed :
     sameSet Generated.deviceTypesAccepted (specDeviceTypes.filter (fun t => decide (t.length ≤ 2))) = true := by decide
 
+/-- T4: among the candidates tried (every string of at most one byte, the six OCI hook names and every string at
+edit distance one from them) `Hook.Validate` of the working tree accepts exactly the hook names of SPEC.md -/
+theorem T4_hook_names_executed : sameSet Generated.hookNamesAccepted specHookNames = true := by decide
+
 set_option maxRecDepth 100000 in
 theorem T3_permission_bytes : ∀ n, n < 256 → isPermByte n.toUInt8 = inRanges Generated.permissionBytes n := by
   decide +kernel
